@@ -77,6 +77,12 @@ pub enum PG {
     DistinctFd(T),
     PlusZ(T, T, T),
     TimesZ(T, T, T),
+    /// `project |x..| { body }`: inside the body `T::Var(900 + i)` stands for the i-th projected variable
+    Project(Vec<usize>, Vec<PG>),
+    /// non-relational test used inside project bodies: succeeds iff the term IS a number right now (no walk)
+    IsNum(T),
+    /// … succeeds iff the term contains no variable right now (syntactically, no walk)
+    IsGround(T),
     /// `closure { g, .. }`: the body is built when the goal is solved
     Closure(Vec<PG>),
     /// a goal that succeeds once and records the user state / constraint store it sees (C22)
@@ -189,6 +195,21 @@ impl PG {
             }
             PG::PlusZ(a, b, c) => t3("plusz", a, b, c, out),
             PG::Probe => out.push_str("probe "),
+            PG::Project(vs, gs) => {
+                out.push_str(&format!("project {} ", vs.len()));
+                for v in vs {
+                    out.push_str(&format!("{} ", v));
+                }
+                toks_goals(gs, out)
+            }
+            PG::IsNum(a) => {
+                out.push_str("isnum ");
+                a.toks(out)
+            }
+            PG::IsGround(a) => {
+                out.push_str("isground ");
+                a.toks(out)
+            }
             PG::Closure(gs) => {
                 out.push_str("closure ");
                 toks_goals(gs, out)
@@ -259,6 +280,13 @@ impl PG {
             "distinctfd" => PG::DistinctFd(T::parse(t)),
             "plusz" => PG::PlusZ(T::parse(t), T::parse(t), T::parse(t)),
             "probe" => PG::Probe,
+            "project" => {
+                let k: usize = t.next().unwrap().parse().unwrap();
+                let vs: Vec<usize> = (0..k).map(|_| t.next().unwrap().parse().unwrap()).collect();
+                PG::Project(vs, goals(t))
+            }
+            "isnum" => PG::IsNum(T::parse(t)),
+            "isground" => PG::IsGround(T::parse(t)),
             "closure" => PG::Closure(goals(t)),
             "timesz" => PG::TimesZ(T::parse(t), T::parse(t), T::parse(t)),
             other => panic!("bad goal token {}", other),
@@ -378,6 +406,50 @@ pub fn build<K: Kind>(g: &PG, vars: &mut Vars) -> K {
         PG::DistinctFd(a) => rel::distinctfd::<DU, DE, K>(t!(a)).cast_into(),
         PG::PlusZ(a, b, c) => rel::plusz::<DU, DE, K>(t!(a), t!(b), t!(c)).cast_into(),
         PG::Probe => probe_goal::<K>(false, vec![]),
+        PG::Project(vs, gs) => {
+            // the projection cells, as `project |x| { }` creates them, stand at indices 900.. of the table
+            vars.ensure(900 + vs.len());
+            let cells: Vec<LT> = vs.iter().map(|i| LT::projection(vars.v[*i].clone())).collect();
+            let saved: Vec<LT> = (0..vs.len()).map(|i| vars.v[900 + i].clone()).collect();
+            for (i, c) in cells.iter().enumerate() {
+                vars.v[900 + i] = c.clone();
+            }
+            let body: Vec<K> = gs.iter().map(|x| build::<K>(x, vars)).collect();
+            for (i, c) in saved.into_iter().enumerate() {
+                vars.v[900 + i] = c;
+            }
+            proto_vulcan::operator::project::Project::new(cells, InferredConj::<DU, DE, K>::from_array(&body).cast_into()).cast_into()
+        }
+        PG::IsGround(a) => {
+            let term = t!(a);
+            fn ground(t: &LT) -> bool {
+                match t.as_ref() {
+                    LTermInner::Var(_, _) => false,
+                    LTermInner::Cons(h, tl) => ground(h) && ground(tl),
+                    LTermInner::Compound(c) => c.children().all(|k| k.as_term().map(|x| ground(x)).unwrap_or(true)),
+                    _ => true,
+                }
+            }
+            proto_vulcan::operator::fngoal::FnGoal::new::<K>(Box::new(move |_solver, state| {
+                if ground(&term) {
+                    proto_vulcan::stream::Stream::unit(Box::new(state))
+                } else {
+                    proto_vulcan::stream::Stream::empty()
+                }
+            }))
+            .cast_into()
+        }
+        PG::IsNum(a) => {
+            let term = t!(a);
+            proto_vulcan::operator::fngoal::FnGoal::new::<K>(Box::new(move |_solver, state| {
+                if term.is_number() {
+                    proto_vulcan::stream::Stream::unit(Box::new(state))
+                } else {
+                    proto_vulcan::stream::Stream::empty()
+                }
+            }))
+            .cast_into()
+        }
         PG::Closure(gs) => {
             let v: Vec<K> = gs.iter().map(|x| build::<K>(x, vars)).collect();
             let g: K = InferredConj::<DU, DE, K>::from_array(&v).cast_into();
